@@ -153,6 +153,9 @@ pub struct Reg<F: Real> {
     pub sh: Option<Vec<Cplx<F>>>,
     pub err: f64,
     pub blank: bool,
+    /// classification only (not part of the state key): some ancestor of this value is a ciphertext-ciphertext
+    /// product of operands with unequal log_delta
+    pub lineage_uld: bool,
 }
 
 pub struct State<F: Real> {
